@@ -10,11 +10,13 @@ clauses
                             from the step-0 /velocities row with CODATA constants and the documented n_dof
                             (Basic, undamped XL-BOMD: 3N-{0,3,6}; Langevin, damped XL-BOMD: 3N) equals Temp to 1e-6
   n_dof-rule                live md.n_dof equals that documented count
-  P0 / L0                   drawn velocities: |P| <= 1e-12 sum m|v|, |L| <= 1e-12 sum m|r||v| at step 0
+  n_dof-positive            that count is > 0 (else T is undefined)
+  P0 / L0                   drawn velocities: |P| <= f sum m|v|, |L| <= f sum m|r||v| at step 0, f = 1e-12 + 4 eps_mach cond(I)
+                            (momenta cannot be removed more accurately than the conditioning of the inertia tensor allows)
   padding-velocity          padding rows of molecule.velocities exactly zero after initialize and after the run
   padding-coordinates       padding rows of molecule.coordinates bitwise equal to the input after initialize and after the run
   zero-com-Ek / -P / -L     every _zero_com call outside "initialise from a supplied field": kinetic energy before = after
-                            (1e-12 rel), |P| after <= 1e-12 scale, |L| after <= 1e-10 scale when angular removal was asked
+                            (1e-12 rel), |P| after <= f scale, |L| after <= f scale when angular removal was asked
   periodic-P / periodic-L   HDF5 rows right after a due periodic removal have zero P (and L for 'angular')
   seed-history              same seed => bitwise identical HDF5 content whatever random numbers were consumed before run()
   seed-none                 torch.manual_seed(s); run(seed=None) == run(seed=s) bitwise (documented meaning of None)
@@ -104,6 +106,26 @@ def _system(case):
     return S, C, [z for z, _ in mols], g
 
 
+def _rigid_factor(m, X):
+    """relative accuracy to which net momenta can be removed in float64: 1e-12 + 4*eps_machine*cond(I), cond over the
+    inertia eigenvalues the repository's pseudo-inverse actually inverts (> 1e-10 amu A^2).  A slightly bent CO2 has
+    cond ~ 7e5, and an independent numpy removal leaves |L| ~ 1e-11 * scale there as well."""
+    from vlib import md
+
+    w = np.linalg.eigvalsh(md.inertia(m, X - md.com(m, X)))
+    w = w[w > 1e-10]
+    cond = float(w.max() / w.min()) if len(w) else 1.0
+    return 1e-12 + 4.0 * 2.220446049250313e-16 * cond
+
+
+def _ndof_mech(case, Zs):
+    """classifier: a molecule with <= 2 atoms under ('angular', N) in an engine that subtracts the constraints has 3N-6 <= 0."""
+    rc = case["remove_com"]
+    if rc is not None and str(rc[0]).lower() == "angular" and case["engine"] in ("basic", "xl") and any(len(z) <= 2 for z in Zs):
+        return "ndof-zero-diatomic-angular"
+    return None
+
+
 class _ZeroComMonitor:
     """class-level wrappers on Molecular_Dynamics_Basic._zero_com / initialize_velocity (inherited by every engine)."""
 
@@ -132,7 +154,8 @@ class _ZeroComMonitor:
                 m = mass[b][r]
                 P, L = mdl.momenta(m, x[b][r], v[b][r])
                 ps, ls = mdl.momentum_scales(m, x[b][r], v[b][r])
-                out.append((mdl.kinetic_amu(m, v[b][r]), float(np.abs(P).max()), float(np.abs(L).max()), ps, ls))
+                out.append((mdl.kinetic_amu(m, v[b][r]), float(np.abs(P).max()), float(np.abs(L).max()), ps, ls,
+                            _rigid_factor(m, x[b][r])))
             return out
 
         def zero_com(self_, molecule, *a, **k):
@@ -246,17 +269,18 @@ def _check_events(acc, rec, tag):
             acc.mon["zero_com_on_supplied_init"] = acc.mon.get("zero_com_on_supplied_init", 0) + 1
             continue
         for b, (bf, af) in enumerate(zip(ev["before"], ev["after"])):
-            ek0, p0, l0, ps0, ls0 = bf
-            ek1, p1, l1, ps1, ls1 = af
+            ek0, p0, l0, ps0, ls0, fac = bf
+            ek1, p1, l1, ps1, ls1, _ = af
             if ek0 <= 0:
                 continue
             if p0 > 1e-6 * ps0 or l0 > 1e-6 * ls0:
                 acc.mon["zero_com_nontrivial"] += 1
             det = {"run": tag, "mol": b, "kw": ev["kw"], "Ek_before_amu": ek0, "Ek_after_amu": ek1}
             acc.upd("zero-com-Ek", abs(ek1 / ek0 - 1.0), 1e-12, det)
-            acc.upd("zero-com-P", p1, 1e-12 * max(ps1, 1e-300), det)
+            det["rel_tolerance"] = fac
+            acc.upd("zero-com-P", p1, fac * max(ps0, ps1, 1e-300), det)
             if ev["kw"]["remove_angular"]:
-                acc.upd("zero-com-L", l1, 1e-10 * max(ls1, 1e-300), det)
+                acc.upd("zero-com-L", l1, fac * max(ls0, ls1, 1e-300), det)
 
 
 def _step0(acc, case, Zs, rec, tag, drawn):
@@ -273,9 +297,21 @@ def _step0(acc, case, Zs, rec, tag, drawn):
         mm = md.masses(Zr)
         x0, v0 = h["coordinates"][0], h["velocities"][0]
         nd = _ndof_rule(case["engine"], len(Zr), rc)
+        allowed = {nd}
+        if nd != 3.0 * len(Zr) and str(rc[0]).lower() == "angular" and case["mols"][k] in LINEAR:
+            allowed.add(3.0 * len(Zr) - 5.0)  # physically right count for a linear molecule, should the TODO ever be done
+        fac = _rigid_factor(mm, x0)
         if rec["n_dof"] is not None:
-            acc.upd("n_dof-rule", abs(float(rec["n_dof"][k]) - nd), 1e-9, {"mol": k, "live": float(rec["n_dof"][k]), "documented": nd,
-                                                                            "engine": case["engine"], "remove_com": rc, "species": Zr})
+            live = float(rec["n_dof"][k])
+            acc.upd("n_dof-rule", min(abs(live - a_) for a_ in allowed), 1e-9,
+                    {"mol": k, "live": live, "documented": nd, "engine": case["engine"], "remove_com": rc, "species": Zr})
+            if any(abs(live - a_) < 1e-9 for a_ in allowed):
+                nd = live
+        if nd <= 0.0:
+            acc.flag("n_dof-positive", True, {"mol": k, "n_dof": nd, "species": Zr, "remove_com": rc, "T0_stored": float(h["T"][0])},
+                     mech=_ndof_mech(case, Zs))
+            continue
+        acc.flag("n_dof-positive", False)
         if drawn:
             T = case["Temp"]
             acc.mon["draws_checked"] += 1
@@ -284,14 +320,15 @@ def _step0(acc, case, Zs, rec, tag, drawn):
             if T == 0.0:
                 acc.flag("T0-stored", float(h["T"][0]) != 0.0 or float(np.abs(v0).max()) != 0.0, {"mol": k, "T0": float(h["T"][0])})
             else:
-                det = {"mol": k, "T0_stored": float(h["T"][0]), "Temp": T, "n_dof_documented": nd, "species": Zr, "run": tag}
+                det = {"mol": k, "T0_stored": float(h["T"][0]), "Temp": T, "n_dof": nd, "species": Zr, "run": tag,
+                       "rel_tolerance_momenta": fac}
                 acc.upd("T0-stored", abs(float(h["T"][0]) / T - 1.0), 1e-10, det)
                 Tind = 2.0 * md.kinetic_amu(mm, v0) * md.REF_KE_SCALE * md.REF_TEMP_SCALE / nd
                 acc.upd("T0-codata", abs(Tind / T - 1.0), 1e-6, dict(det, T0_recomputed=Tind))
                 P, L = md.momenta(mm, x0, v0)
                 ps, ls = md.momentum_scales(mm, x0, v0)
-                acc.upd("P0", np.abs(P).max(), 1e-12 * ps, det)
-                acc.upd("L0", np.abs(L).max(), 1e-12 * ls, det)
+                acc.upd("P0", np.abs(P).max(), fac * ps, det)
+                acc.upd("L0", np.abs(L).max(), fac * ls, det)
         # rows right after a due periodic removal
         if rc is not None:
             stride = int(rc[1])
@@ -302,9 +339,9 @@ def _step0(acc, case, Zs, rec, tag, drawn):
                 ps, ls = md.momentum_scales(mm, h["coordinates"][s_], h["velocities"][s_])
                 if ps <= 0:
                     continue
-                acc.upd("periodic-P", np.abs(P).max(), 1e-12 * ps, {"mol": k, "step": s_, "run": tag})
+                acc.upd("periodic-P", np.abs(P).max(), fac * ps, {"mol": k, "step": s_, "run": tag})
                 if str(rc[0]).lower() == "angular":
-                    acc.upd("periodic-L", np.abs(L).max(), 1e-10 * ls, {"mol": k, "step": s_, "run": tag})
+                    acc.upd("periodic-L", np.abs(L).max(), fac * ls, {"mol": k, "step": s_, "run": tag})
     return ok
 
 
@@ -323,7 +360,8 @@ def _draw(case):
     runs = {"A": A, "B": B, "C": Cc, "D": D}
     for tag, r in runs.items():
         if r["error"]:
-            acc.flag("run-raised", True, {"run": tag, "error": r["error"][:400], "Temp": case["Temp"], "remove_com": case["remove_com"]})
+            acc.flag("run-raised", True, {"run": tag, "error": r["error"][:400], "Temp": case["Temp"], "remove_com": case["remove_com"],
+                                          "species": Zs}, mech=_ndof_mech(case, Zs))
         else:
             acc.mon["md_runs"] += 1
     if any(r["error"] for r in runs.values()):
